@@ -196,7 +196,7 @@ func runChild(mode string, args map[string]string) childResult {
 	}
 	var res childResult
 	var seen []string
-	deadline := time.NewTimer(3 * hangBound)
+	deadline := time.NewTimer(deadBound + 2*hangBound)
 	defer deadline.Stop()
 	for {
 		select {
@@ -233,7 +233,7 @@ func runChild(mode string, args map[string]string) childResult {
 		case <-deadline.C:
 			w.kill()
 			theWork = nil
-			return childResult{died: true, crash: fmt.Sprintf("worker did not answer within %s", 3*hangBound)}
+			return childResult{died: true, crash: fmt.Sprintf("worker did not answer within %s", deadBound+2*hangBound)}
 		}
 	}
 }
